@@ -20,7 +20,7 @@ pub const TOKENS: &[&str] = &[
     "+=", "-=", "*=", "/=", "#", ":", "::", ":=", "=", "==", "!=", "<=>", "<!>", "(", ")", "[", "]", "{", "}",
     "do", "end", ">", ">=", "<", "<=", "fn", "pu", "and", "or", "not", "!", "?", "|", "'", ",", ".", "->", "\n",
     "use", "from", "as", "external", "<<<<<<<", ">>>>>>>", "// c", "$", "é", "self", "start", "_", "\"a\nb\"",
-    "9223372036854775808", "1e999", "\"éé\n\"", "\"ü\n\nb\"", "\r\n",
+    "9223372036854775808", "1e999", "\"éééé€€\n\"", "\"ü\n\nb\"", "\r\n",
 ];
 
 /// the subset used for corpus replacement/insertion edits
